@@ -553,7 +553,20 @@ func main() {
 			in, obs := rn.runHistory(initial, steps)
 			out.Case(in, obs, true, "stream:history", "op:hist", fmt.Sprintf("hist-steps:%d", len(steps)))
 		case 0, 1, 2: // valid, forward
-			rn.caseTogo(g.record(s, "top", 0), s, "stream:valid")
+			root := g.record(s, "top", 0)
+			whole := false
+			for i, k := range root.keys {
+				for _, e := range s.dets {
+					whole = whole || (e.emb && e.key == k && root.vals[i].k == 'R')
+				}
+			}
+			if whole && len(root.keys) > 1 {
+				// an embedded struct addressed by its own key and through promoted names: every order of filling
+				// must give the same struct (repeated conversions of fresh records)
+				rn.caseMix(root, s, 24, "stream:whole-embedded")
+			} else {
+				rn.caseTogo(root, s, "stream:valid")
+			}
 		case 3, 4: // valid, round trip
 			s = echoable[g.r.Intn(len(echoable))]
 			rn.caseEcho(g.record(s, "top", 0), s, "stream:valid")
